@@ -368,6 +368,10 @@ def obs_msg(m, schema, ci):
     ow = betterproto.serialized_on_wire(m)
     items = []
     for f, s in zip(md.fields, sets):
+        if (not s and f.ty == "message" and not f.wraps and f.kind.startswith("u") and not f.repeated
+                and not f.optional and (f.group is None or cur[f.group] == str(names.index(f.name)))):
+            items.append("[0 fresh]")      # an unset sub-message: not expanded (recursive types)
+            continue
         try:
             v = getattr(m, f.name)
         except AttributeError:
